@@ -279,7 +279,7 @@ func (i ItemCollection) Equals(with Item) bool {
 	if !with.IsCollection() {
 		return false
 	}
-	if with.GetType() != CollectionOfItems {
+	if t := with.GetType(); t != CollectionOfItems && t != CollectionOfIRIs {
 		return false
 	}
 	result := true
